@@ -165,6 +165,18 @@ func injCatalogue(seed int64, nSoup int) []injection {
 				Note: ":preprocess " + name, Decls: fmt.Sprintf("func %s(%s) (%s) { %s }\n", name, strings.Join(ps, ", "), strings.Join(rs, ", "), body)})
 		}
 	}
+	// variadic hooks and converters: the last parameter is a ...T
+	for _, n := range []struct{ id, decl, note string }{
+		{"hook_variadic_src", "func HkVarSrc(d *BD, s ...*BS) {}\n", ":preprocess HkVarSrc"},
+		{"hook_variadic_dst", "func HkVarDst(d ...*BD) {}\n", ":postprocess HkVarDst"},
+		{"hook_variadic_extra", "func HkVarX(d *BD, s *BS, x ...int) {}\n", ":preprocess HkVarX"},
+		{"hook_variadic_extra_err", "func HkVarXE(d *BD, s *BS, x ...int) error { return nil }\n", ":postprocess HkVarXE"},
+		{"hook_variadic_only", "func HkVarOnly(x ...interface{}) {}\n", ":preprocess HkVarOnly"},
+		{"conv_variadic", "func CvVar(xs ...int) int { return 0 }\n", ":conv CvVar A"},
+		{"conv_variadic_second", "func CvVar2(a int, xs ...int) int { return a }\n", ":conv CvVar2 A"},
+	} {
+		c = append(c, injection{ID: n.id, Stage: "parse", Must: "either", Pos: "note", Slot: "note", Note: n.note, Decls: n.decl, NoVet: false})
+	}
 	// method shapes
 	meth := func(id, sig, must string, novet bool) {
 		c = append(c, injection{ID: "method_" + id, Stage: "build", Must: must, Pos: "method", Slot: "method", Method: sig, NoVet: novet})
